@@ -116,9 +116,8 @@ class ConstantMulLinearOperator(LinearOperator):
         return res
 
     def _permute_batch(self, *dims: int) -> LinearOperator:
-        return self.__class__(
-            self.base_linear_op._permute_batch(*dims), self._constant.expand(self.batch_shape).permute(*dims)
-        )
+        constant = self._constant.expand(self.batch_shape)
+        return self.__class__(self.base_linear_op._permute_batch(*dims), constant.permute(*dims) if dims else constant)
 
     def _bilinear_derivative(self, left_vecs: Tensor, right_vecs: Tensor) -> Tuple[Optional[Tensor], ...]:
         # Gradient with respect to the constant
